@@ -64,10 +64,10 @@ const SRC_NAMES: [&str; 8] = ["ebgp", "rs", "ibgp", "rrc", "cebgp", "local", "ke
 const RR_NAMES: [&str; 3] = ["none", "default", "explicit"];
 const AP_NAMES: [&str; 9] = ["absent", "empty", "seq1", "confedseq+seq", "confedset", "set", "seq255", "seq255+seq1", "seq+confedseq+set"];
 const NH_NAMES: [&str; 7] = ["v4", "v6", "v6ll", "none", "none-flowspec", "unspec4", "unspec6"];
-const POL_NAMES: [&str; 6] = ["none", "setnh-addr", "setnh-self", "setnh-unchanged", "set-med", "reject"];
+const POL_NAMES: [&str; 8] = ["none", "setnh-addr", "setnh-self", "setnh-unchanged", "set-med", "reject", "community-replace", "community-remove-wellknown"];
 
 // factor order: src recv rr confed max attrs aspath nh pol llgr
-const DIMS: [usize; 10] = [8, 5, 3, 2, 2, 256, 9, 7, 6, 2];
+const DIMS: [usize; 10] = [8, 5, 3, 2, 2, 256, 9, 7, 8, 2];
 const F_SRC: usize = 0;
 const F_RECV: usize = 1;
 const F_RR: usize = 2;
@@ -390,6 +390,9 @@ fn mk_policy(pol: usize, v6: bool) -> Option<Arc<table::PolicyAssignment>> {
         2 => actions.nexthop = Some(table::NexthopAction::PeerSelf),
         3 => actions.nexthop = Some(table::NexthopAction::Unchanged),
         4 => actions.med = Some(table::MedAction { action_type: table::MedActionType::Replace, value: POLICY_MED as i64 }),
+        // community rewriting: whatever the policy does to the communities, an LLGR-stale route still carries LLGR_STALE
+        6 => actions.community = Some(table::CommunityAction { action_type: table::CommunityActionType::Replace, communities: vec![(65001 << 16) | 100] }),
+        7 => actions.community = Some(table::CommunityAction { action_type: table::CommunityActionType::Remove, communities: vec![0xffff_0006, 0xffff_0007, 0xffff_ff01, (65001 << 16) | 100] }),
         _ => disposition = Some(table::Disposition::Reject),
     }
     let st = Arc::new(table::Statement { name: Arc::from("c09-s"), conditions: vec![], disposition, actions });
@@ -698,7 +701,7 @@ fn check_path(c: &Case, s: &Setup, p: &PathIn, out: Option<(&Nh, &Attrs)>, st: &
     // shape classes: next-hop kind {v4,v6,v6ll,none,unspec}, policy {default (no next-hop action), setnh-*}
     let nhname = ["v4", "v6", "v6ll", "none", "none", "unspec", "unspec"][c.d[F_NH]];
     let polname = POL_NAMES[c.d[F_POL]];
-    let polclass = ["default", "setnh-addr", "setnh-self", "setnh-unchanged", "default", "default"][c.d[F_POL]];
+    let polclass = ["default", "setnh-addr", "setnh-self", "setnh-unchanged", "default", "default", "default", "default"][c.d[F_POL]];
     let pol = c.d[F_POL];
     let mask = c.d[F_ATTRS];
     let is_peer = p.role.is_some();
